@@ -8,7 +8,7 @@ Theorems about the model `Crem/Model/EngineSummary.lean` of the engine's summary
 and of the `ParetoFrontMember` attribute after `PATCH /api/v1/model` (`paretoMember`), composed with
 the byte-level CSV model of C20 (`render`, `readAll`, `cast`) and the BooleanArchive model of C09
 (`decode`, `encode`, `decodeC`).  The quantifiers range over **all** well-formed summaries: any number
-of rows, any number of decision-variable columns, encodings of any word count.  Every `theorem` in
+of rows, one or more decision-variable columns, encodings of any word count.  Every `theorem` in
 this file is audited by `./check C13` (`#print axioms`).
 
 `wellFormed sc names rows` (decidable; the driver evaluates it on every summary the real explorer
@@ -28,13 +28,18 @@ the same theorem covers the code before and after each repair:
                               (`1E5`, `1000000`) comes back as `%v` of the float, one spelling a boolean
                               (`F`) as ""; the summary is even rejected when the `%v` text leaves the
                               hexadecimal alphabet (`1E21` -> `1e+21`)     (`enginesummary:encoding-text-lost-by-cast`, `enginesummary:summary-rejected`)
-  new  `poolReset = false`    the solution pool is keyed by label and never emptied: after a second
+  D28  `poolReset = false`    the solution pool is keyed by label and never emptied: after a second
                               summary is posted, labels served before still return the OLD rows
-                              (not part of the pure functions below; modelled in the driver's engine
-                              state, `enginesummary:stale-pool-after-repost`)
+                              (`enginesummary:stale-pool-after-repost`).  The single-request functions
+                              (`loadSummary`, `lookup`, `paretoMember`) never read this flag; it lives in the
+                              engine STATE of the model (`Engine`, `step`, §8) and in the `history` theorems,
+                              which need it and are refuted without it
 
-`roundtrip`, `decoded_set`, `pareto_flag` are the property at full strength, proved for
-`Variant.fixed`.  For `Variant.current` the full statements are false (refuting `example`s below at
+`roundtrip`, `decoded_set`, `pareto_flag` are the property for ONE POST followed by ONE GET / PATCH, at
+full strength for `Variant.fixed`; `history` / `history_sequence` are the property over request
+sequences (any earlier state, repeated and interleaved requests).  `wellFormed_scenario` states what
+`wellFormed` requires of the scenario (at least one action, at least one variable);
+`Properties/C13Explorer.lean` proves that what the explorer writes IS well-formed.  For `Variant.current` the full statements are false (refuting `example`s below at
 `1E5`, `F`, `1E21` and at a nine-column summary); `roundtrip_partial`, `decoded_set_partial`,
 `pareto_flag_partial` prove them under the two excluding hypotheses, both decidable predicates of the
 model that the driver evaluates:
@@ -70,74 +75,15 @@ theorem roundtrip_of_variant (v : Variant) (sc : Scenario) (names : List Bytes) 
     (hc : encodingsReadBack v rows = true) :
     ∃ t, loadSummary v sc (renderSummary names rows) = .ok t ∧
       lookup v sAsIs t = .asIs ∧
-      ∀ row ∈ rows.tail, lookup v row.label t = .found row.encoding row.note := by
-  have w := wfacts h
-  refine ⟨expectedTable v names rows, loadSummary_render v sc names rows w hc, ?_, ?_⟩
-  · obtain ⟨r0, rest, hrows, hlab, _⟩ := w.first
-    have hcont := containsLabel_expected v sc names rows w r0 (by rw [hrows]; simp)
-    rw [hlab] at hcont
-    have hroute : routableLabel sAsIs = true := by decide
-    simp [lookup, hcont, hroute]
-  · intro row hrow
-    have hmem : row ∈ rows := List.mem_of_mem_tail hrow
-    have hcont := containsLabel_expected v sc names rows w row hmem
-    obtain ⟨r0, rest, hrows, hlab0, _, _, hrest⟩ := w.first
-    subst hrows
-    have hne : (row.label == sAsIs) = false := by simpa using hrest row (by simpa using hrow)
-    have hcont' : containsLabel row.label
-        { header := header names, cells := rowCells v r0 :: List.map (rowCells v) rest } = true := by
-      simpa [expectedTable] using hcont
-    have hroute := (rowFacts (w.shape row hmem)).route
-    simp only [lookup, expectedTable, List.map_cons, List.tail_cons, hcont', hroute, Bool.not_true,
-      Bool.false_eq_true, if_false, hne]
-    simp only [List.tail_cons] at hrow
-    -- with `getSolutionDetail` repaired the search covers row 0 too: the As-Is row is skipped (its label differs)
-    have hskip : findDetail v { header := header names, cells := rowCells v r0 :: List.map (rowCells v) rest } row.label
-        (if v.guards = true then rowCells v r0 :: List.map (rowCells v) rest else List.map (rowCells v) rest)
-        = findDetail v { header := header names, cells := rowCells v r0 :: List.map (rowCells v) rest } row.label
-            (List.map (rowCells v) rest) := by
-      split
-      · have rf0 := rowFacts (w.shape r0 (by simp))
-        simp only [findDetail, labelOf_rowCells v r0 rf0.label]
-        have hdiff : (some r0.label == some row.label) = false := by
-          rw [hlab0]
-          have : row.label ≠ sAsIs := hrest row hrow
-          simp [beq_eq_false_iff_ne, Ne.symm this]
-        rw [hdiff]
-        simp
-      · rfl
-    rw [hskip]
-    apply findDetail_rows v _ names sc rest (fun r hr => w.shape r (by simp [hr]))
-      (mem_of_allDistinct_cons (by simpa using w.distinct)).2 _ _ _ row hrow
-    · simp only [encodingIndex, header, List.length_cons, List.length_append, List.length_nil]
-      simp only [layoutOk, Bool.or_eq_true, beq_iff_eq] at hl
-      rcases Bool.eq_false_or_eq_true v.colsFromEnd with hv | hv
-      · simp [hv]
-      · rcases hl with hl | hl
-        · rw [hv] at hl; cases hl
-        · simp [hv, hl]
-    · simp only [noteIndex, header, List.length_cons, List.length_append, List.length_nil]
-      simp only [layoutOk, Bool.or_eq_true, beq_iff_eq] at hl
-      rcases Bool.eq_false_or_eq_true v.colsFromEnd with hv | hv
-      · simp [hv]
-      · rcases hl with hl | hl
-        · rw [hv] at hl; cases hl
-        · simp [hv, hl]
-    · simp only [encodingsReadBack, Bool.or_eq_true, List.all_eq_true] at hc
-      rcases hc with hc | hc
-      · exact Or.inl hc
-      · exact Or.inr (fun r hr => hc r (by simp [hr]))
+      ∀ row ∈ rows.tail, lookup v row.label t = .found row.encoding row.note :=
+  roundtrip_core v sc names rows h hl hc
 
 /-- every row of a well-formed summary denotes a set of the scenario's actions, canonically -/
 theorem encoding_denotes (sc : Scenario) (names : List Bytes) (rows : List Row)
     (h : wellFormed sc names rows = true) (row : Row) (hrow : row ∈ rows) :
     ∃ flags, BoolArchive.decode sc.nActions (toChars row.encoding) = .ok flags ∧
-      ofChars (BoolArchive.encode flags) = row.encoding := by
-  have hc := (rowFacts ((wfacts h).shape row hrow)).canon
-  unfold canonicalEncoding at hc
-  cases hd : BoolArchive.decode sc.nActions (toChars row.encoding) with
-  | error e => simp [hd] at hc
-  | ok flags => exact ⟨flags, rfl, by simpa [hd] using hc⟩
+      ofChars (BoolArchive.encode flags) = row.encoding :=
+  encoding_denotes_core sc names rows h row hrow
 
 /-- **decoded_set, any variant.**  The solution served for a row's label has exactly the active
 actions the row's encoding denotes (composition with C09: `AddSolution`'s Compress / Decode /
@@ -168,32 +114,13 @@ no layout hypothesis is needed.) -/
 theorem pareto_flag_of_variant (v : Variant) (sc : Scenario) (names : List Bytes) (rows : List Row)
     (h : wellFormed sc names rows = true) (hc : encodingsReadBack v rows = true) :
     ∃ t, loadSummary v sc (renderSummary names rows) = .ok t ∧
-      ∀ row ∈ rows.tail, paretoMember sc t row.encoding = some true := by
-  have w := wfacts h
-  refine ⟨expectedTable v names rows, loadSummary_render v sc names rows w hc, ?_⟩
-  intro row hrow
-  have hmem : row ∈ rows := List.mem_of_mem_tail hrow
-  obtain ⟨flags, hd, he⟩ := encoding_denotes sc names rows h row hmem
-  have rf := rowFacts (w.shape row hmem)
-  simp only [paretoMember, hd, he, Option.some.injEq]
-  simp only [encodingPresent, expectedTable, List.any_eq_true]
-  refine ⟨rowCells v row, ?_, ?_⟩
-  · rw [← List.map_tail]
-    exact List.mem_map.mpr ⟨row, hrow, rfl⟩
-  · have hidx : (header names).length - 2 = row.values.length + 1 := by
-      simp [header, rf.vlen]
-    rw [hidx, getElem?_rowCells_enc]
-    simp only [Option.map_some, beq_iff_eq, Option.some.injEq]
-    apply cellText_encCell
-    simp only [encodingsReadBack, Bool.or_eq_true, List.all_eq_true] at hc
-    rcases hc with hc | hc
-    · exact Or.inl hc
-    · exact Or.inr (hc row hmem)
+      ∀ row ∈ rows.tail, paretoMember sc t row.encoding = some true :=
+  pareto_core v sc names rows h hc
 
 /-! ## the property at full strength: the repaired engine -/
 
 /-- **roundtrip** (C13, full strength; `Variant.fixed`): every well-formed summary — any number of
-rows, any number of variable columns, any encodings (any word count; decimal-, exponent- or
+rows, one or more variable columns, any encodings (any word count; decimal-, exponent- or
 boolean-looking or not) — is accepted, and every label is served with its row's encoding and note. -/
 theorem roundtrip (sc : Scenario) (names : List Bytes) (rows : List Row)
     (h : wellFormed sc names rows = true) :
@@ -232,6 +159,128 @@ theorem pareto_flag (sc : Scenario) (names : List Bytes) (rows : List Row)
     ∃ t, loadSummary .fixed sc (renderSummary names rows) = .ok t ∧
       ∀ row ∈ rows.tail, paretoMember sc t row.encoding = some true :=
   pareto_flag_of_variant .fixed sc names rows h rfl
+
+/-! ## the PATCH decodes onto the served model, whatever that model holds -/
+
+/-- `paretoMember` (and `poolActive`) decode an encoding with the abstract `decode n`.  The Go code decodes it INTO
+`modelCompressor.Compress(m.model)`, the compressed state of whatever action set `cur` the served model holds at
+that moment (`v1PatchModelHandler`, `reInitialiseModelWithEncoding`), and then `Decompress`es.  That makes no
+difference (C09): for every current set `cur` of the scenario's size the concrete `Decode` reports exactly the error
+class `decode n` assigns to the text, and on success decompression yields exactly the decoded set. -/
+theorem patch_decode_independent_of_model_state (n : Nat) (cur : List Bool) (hcur : cur.length = n) (enc : Bytes) :
+    ∃ a, BoolArchive.compress cur = some a ∧
+      (BoolArchive.decodeC a (toChars enc)).2
+        = (match BoolArchive.decode n (toChars enc) with | .ok _ => none | .error e => some e) ∧
+      ∀ flags, BoolArchive.decode n (toChars enc) = .ok flags →
+        BoolArchive.decompress (BoolArchive.decodeC a (toChars enc)).1 = some flags := by
+  obtain ⟨a, ha1, ha2, ha3, _⟩ := BoolArchive.compress_spec cur
+  have hs : a.size = n := by rw [ha3, hcur]
+  refine ⟨a, ha1, ?_, ?_⟩
+  · rw [BoolArchive.decodeC_class a ha2.len (toChars enc), hs]
+    cases BoolArchive.decode n (toChars enc) <;> rfl
+  · intro flags hf
+    obtain ⟨_, _, d3, _⟩ := BoolArchive.decodeC_ok a ha2 (toChars enc) flags (by rw [hs]; exact hf)
+    rw [BoolArchive.decompress_spec, d3]
+
+example : ∃ a, BoolArchive.compress [true, false, true] = some a ∧
+    BoolArchive.decompress (BoolArchive.decodeC a (toChars (ascii "2"))).1 = some [false, true, false] := by
+  obtain ⟨a, h1, _, h3⟩ := patch_decode_independent_of_model_state 3 [true, false, true] rfl (ascii "2")
+  exact ⟨a, h1, h3 _ (by decide)⟩
+
+/-! ## what `wellFormed` silently requires of the scenario -/
+
+/-- **A well-formed summary exists only for a scenario with at least one management action and at least one
+decision variable.**  With no action no encoding text decodes (`BooleanArchive.Decode` wants at least one word, the
+archive of zero actions has none), with no variable the writer's rows have one field more than its header
+(`Row.fields`): in both cases `wellFormed` is false, so every theorem of this file is about
+`1 ≤ sc.nActions ∧ sc.vars ≠ []` — stated here so that the restriction is visible.  (crem's catchment scenarios have
+six variables; a data set without any action row is rejected by the explorer and the engine before a summary could
+exist.) -/
+theorem wellFormed_scenario (sc : Scenario) (names : List Bytes) (rows : List Row)
+    (h : wellFormed sc names rows = true) : 1 ≤ sc.nActions ∧ sc.vars ≠ [] := by
+  constructor
+  · rcases Nat.eq_zero_or_pos sc.nActions with h0 | h0
+    · rw [wellFormed_zero_actions sc names rows h0] at h; cases h
+    · exact h0
+  · have w := wfacts h
+    intro hv
+    apply w.nne
+    apply List.eq_nil_of_length_eq_zero
+    rw [w.nlen, hv]; rfl
+
+/-! ## histories: the property over request SEQUENCES
+
+The statements above speak of ONE `POST` and ONE `GET` / `PATCH` on the table it left.  The engine is a server:
+labels are pooled lazily, summaries are re-posted, scenarios replaced.  `Crem/Model/EngineSummary.lean` §8 models
+the state (`Engine`: scenario, table, pool, membership flag) and one request (`step`).  `Quiet v e later` says that
+no request of `later` replaces the summary or the scenario: each is a `GET`, a `PATCH`, or a `POST` the engine
+rejects when it arrives. -/
+
+/-- **history, any variant that resets the pool.**  Let the engine be in ANY state `e₀` (whatever was posted,
+served and pooled before), let a well-formed summary of `e₀`'s scenario be posted, and let any quiet request
+sequence `later` follow (labels fetched in any order and any number of times, encodings patched, malformed
+summaries posted and rejected).  Then the POST was accepted, and in the state reached EVERY label is served with
+exactly its row's encoding, note, membership flag and decoded action set — `As-Is` from the pool's own entry —
+and EVERY non-as-is encoding is reported as a Pareto-front member. -/
+theorem history_of_variant (v : Variant) (hp : v.poolReset = true) (e₀ : Engine) (names : List Bytes)
+    (rows : List Row) (h : wellFormed e₀.sc names rows = true) (hl : layoutOk v names = true)
+    (hc : encodingsReadBack v rows = true) (later : List Req)
+    (hq : Quiet v (step v e₀ (.post (renderSummary names rows))).1 later) :
+    (step v e₀ (.post (renderSummary names rows))).2 = .ok ∧
+    (step v (exec v (step v e₀ (.post (renderSummary names rows))).1 later) (.get sAsIs)).2
+      = .found (asIsCached e₀.sc) ∧
+    (∀ row ∈ rows.tail, ∀ flags, BoolArchive.decode e₀.sc.nActions (toChars row.encoding) = .ok flags →
+      (step v (exec v (step v e₀ (.post (renderSummary names rows))).1 later) (.get row.label)).2
+        = .found ⟨row.encoding, some row.note, true, some flags⟩) ∧
+    (∀ row ∈ rows.tail,
+      (step v (exec v (step v e₀ (.post (renderSummary names rows))).1 later) (.patch row.encoding)).2
+        = .member (some true)) := by
+  obtain ⟨hok, H⟩ := holds_after_post v hp e₀ names rows h hc
+  have H' := holds_exec v e₀.sc names rows h hl hc later _ H hq
+  exact ⟨hok, getAsIs_of_holds v e₀.sc names rows h hl hc _ H',
+    fun row hrow flags hf => get_of_holds v e₀.sc names rows h hl hc _ H' row hrow flags hf,
+    fun row hrow => patch_of_holds v e₀.sc names rows h hc _ H' row hrow⟩
+
+/-- **history** (C13 over request sequences, full strength; `Variant.fixed`): after ANY request sequence whose
+last accepted `POST /api/v1/solutions` carried a well-formed summary S of the engine's scenario (and no scenario
+was posted since), every `GET /api/v1/solutions/<label>` of a row of S answers with that row and every
+`PATCH /api/v1/model` with a non-as-is encoding of S reports a Pareto-front member.  `e₀` is the state in which
+that POST arrives: it is universally quantified, so everything that happened before is covered. -/
+theorem history (e₀ : Engine) (names : List Bytes) (rows : List Row)
+    (h : wellFormed e₀.sc names rows = true) (later : List Req)
+    (hq : Quiet .fixed (step .fixed e₀ (.post (renderSummary names rows))).1 later) :
+    (step .fixed e₀ (.post (renderSummary names rows))).2 = .ok ∧
+    (step .fixed (exec .fixed (step .fixed e₀ (.post (renderSummary names rows))).1 later) (.get sAsIs)).2
+      = .found (asIsCached e₀.sc) ∧
+    (∀ row ∈ rows.tail, ∀ flags, BoolArchive.decode e₀.sc.nActions (toChars row.encoding) = .ok flags →
+      (step .fixed (exec .fixed (step .fixed e₀ (.post (renderSummary names rows))).1 later) (.get row.label)).2
+        = .found ⟨row.encoding, some row.note, true, some flags⟩) ∧
+    (∀ row ∈ rows.tail,
+      (step .fixed (exec .fixed (step .fixed e₀ (.post (renderSummary names rows))).1 later) (.patch row.encoding)).2
+        = .member (some true)) :=
+  history_of_variant .fixed rfl e₀ names rows h rfl rfl later hq
+
+/-- the same in sequence form: any engine, any requests `before`, the POST of S, any quiet requests `later` -/
+theorem history_sequence (e : Engine) (before later : List Req) (names : List Bytes) (rows : List Row)
+    (h : wellFormed (exec .fixed e before).sc names rows = true)
+    (hq : Quiet .fixed (exec .fixed e (before ++ [.post (renderSummary names rows)])) later) :
+    ∀ row ∈ rows.tail, ∀ flags,
+      BoolArchive.decode (exec .fixed e before).sc.nActions (toChars row.encoding) = .ok flags →
+      (step .fixed (exec .fixed e (before ++ .post (renderSummary names rows) :: later)) (.get row.label)).2
+        = .found ⟨row.encoding, some row.note, true, some flags⟩ ∧
+      (step .fixed (exec .fixed e (before ++ .post (renderSummary names rows) :: later)) (.patch row.encoding)).2
+        = .member (some true) := by
+  have e1 : exec .fixed e (before ++ [.post (renderSummary names rows)])
+      = (step .fixed (exec .fixed e before) (.post (renderSummary names rows))).1 := by
+    simp [exec, List.foldl_append]
+  have e2 : exec .fixed e (before ++ .post (renderSummary names rows) :: later)
+      = exec .fixed (step .fixed (exec .fixed e before) (.post (renderSummary names rows))).1 later := by
+    simp [exec, List.foldl_append]
+  rw [e1] at hq
+  obtain ⟨_, _, hg, hpch⟩ := history (exec .fixed e before) names rows h later hq
+  intro row hrow flags hf
+  rw [e2]
+  exact ⟨hg row hrow flags hf, hpch row hrow⟩
 
 /-! ## the code as it stood: `_partial` versions under the two excluding hypotheses
 
@@ -416,5 +465,44 @@ example : serve ⟨true, false, false, false⟩ sc6 names6 [asIs6, row6 "x" "3.5
 set_option maxRecDepth 100000 in
 example : serve .current sc5 names5 [{ asIs5 with label := ascii "first" }] "first" = .panic .labelInRowZero ∧
     loadSummary .current sc5 (ascii "Solution\nx\n") = .panic .headerIndex := by decide
+
+/-! ## histories: non-vacuity of `history`, and the refutation for an engine that does not reset its pool -/
+
+/-- the third repair under the microscope: with every other repair applied but the pool NOT reset -/
+def vNoPoolReset : Variant := ⟨true, true, false, true⟩
+
+-- non-vacuity of `history`: a non-trivial quiet sequence (repeated GETs, PATCHes, a rejected POST) exists …
+set_option maxRecDepth 100000 in
+example : wellFormed sc5 names5 [asIs5, row5 "x" "1ABC", row5 "y" "12"] = true ∧
+    Quiet .fixed (step .fixed { sc := sc5 } (.post (renderSummary names5 [asIs5, row5 "x" "1ABC", row5 "y" "12"]))).1
+      [.get (ascii "y"), .patch (ascii "1ABC"), .post (ascii "Solution\nx\n"), .get (ascii "y"), .get (ascii "nope"),
+       .patch (ascii "zz")] := by
+  simp only [Quiet]
+  decide
+-- … and a later POST that IS accepted breaks `Quiet`
+set_option maxRecDepth 100000 in
+example : ¬ Quiet .fixed (step .fixed { sc := sc5 } (.post (renderSummary names5 [asIs5, row5 "x" "1ABC"]))).1
+    [.post (renderSummary names5 [asIs5, row5 "x" "12"])] := by
+  simp only [Quiet]
+  decide
+
+-- **refutation for `poolReset = false`** (all other repairs applied): post S₁ (row `x` = `1ABC`), fetch `x`, post the
+-- well-formed S₂ (row `x` = `12`), fetch `x` again: the engine still serves S₁'s row, and yet reports S₂'s encoding as
+-- a Pareto-front member.  The repaired engine serves S₂'s row.  So the history statement is FALSE without the third
+-- repair, whereas the single-request theorems above hold for it verbatim (they never look at the pool).
+set_option maxRecDepth 100000 in
+example :
+    wellFormed sc5 names5 [asIs5, row5 "x" "12"] = true ∧
+    (step vNoPoolReset (exec vNoPoolReset { sc := sc5 }
+        [.post (renderSummary names5 [asIs5, row5 "x" "1ABC"]), .get (ascii "x"),
+         .post (renderSummary names5 [asIs5, row5 "x" "12"])]) (.get (ascii "x"))).2
+      = .found (cachedOf sc5 (ascii "1ABC") (ascii "Pareto front member 1 of 1")) ∧
+    (step vNoPoolReset (exec vNoPoolReset { sc := sc5 }
+        [.post (renderSummary names5 [asIs5, row5 "x" "1ABC"]), .get (ascii "x"),
+         .post (renderSummary names5 [asIs5, row5 "x" "12"])]) (.patch (ascii "12"))).2 = .member (some true) ∧
+    (step .fixed (exec .fixed { sc := sc5 }
+        [.post (renderSummary names5 [asIs5, row5 "x" "1ABC"]), .get (ascii "x"),
+         .post (renderSummary names5 [asIs5, row5 "x" "12"])]) (.get (ascii "x"))).2
+      = .found (cachedOf sc5 (ascii "12") (ascii "Pareto front member 1 of 1")) := by decide
 
 end Crem.EngineSummary
